@@ -50,9 +50,13 @@ CONSTANTS Streams,        \* set of frame sequences explored (MC module)
           MaxBlockSize,   \* msg.rs max_block_size() = max_block_weight / 21 * 708
           TimeoutPerChunk,\* TRUE: `set_stream_timeout` runs before every `read_exact` (codec.rs);
                           \* FALSE: once per `read` call (probe configuration only)
-          SerErrorsFatal  \* TRUE: every error returned by `read` ends the reader loop of conn.rs
+          SerErrorsFatal, \* TRUE: every error returned by `read` ends the reader loop of conn.rs
                           \* (`try_break!`); FALSE: Error::Serialization is skipped like a timeout
                           \* (probe configuration only, see CodecConn.tla)
+          VersionSkew     \* 0: the reader decodes with the protocol version the writer serialised with
+                          \* (the version negotiated for the connection, `Codec.version`);
+                          \* v > 0: the reader decodes every body with version v whatever the connection
+                          \* negotiated (probe configuration only: `decode_message(.., ProtocolVersion::local())`)
 
 VARIABLES stream, avail, pos, buf, pre, pend, nl, st, pc, want, out, halted, done, tmo, sil
 vars == <<stream, avail, pos, buf, pre, pend, nl, st, pc, want, out, halted, done, tmo, sil>>
@@ -102,7 +106,66 @@ Limit(t) == IF KnownType(t) THEN 4 * MaxMsgSize(t) ELSE 4 * MaxBlockSize
 (*   count  item count field   items  whole items carried                 *)
 (*   extra  (Headers) bytes after the last whole header that are no header*)
 (*   att    attachment bytes announced in the body and following the frame*)
+(* Optional fields (absent in frames recorded by the harness, see the      *)
+(* accessors below):                                                       *)
+(*   mix    (headers / counted) the sizes of the items, repeated           *)
+(*          cyclically: block headers differ in size with the edge bits of *)
+(*          their proof of work, peer addresses with the address family    *)
+(*   ver,obj (built) the protocol version the body was serialised with and *)
+(*          the composition of the object (transaction, block, compact     *)
+(*          block, segment response) - their wire form depends on it       *)
+(*   mv     which two magic bytes the frame carries (label for the         *)
+(*          renderer; `magic` says whether they are the local network's)   *)
+(*   wlen   the announced length on the wire when it does not fit a TLC    *)
+(*          integer (decimal string; `len` is then the abstraction 2^30:   *)
+(*          the machine only ever compares `len` with a limit < 2^30)      *)
 FrameSize(f) == HDR + f.body + f.att
+
+\* ---- items of different sizes ---------------------------------------------------------
+Has(f, fld) == fld \in DOMAIN f
+MixOf(f) == IF Has(f, "mix") /\ f.mix # <<>> THEN f.mix ELSE <<BH>>
+RECURSIVE SumTo(_, _)
+SumTo(m, n) == IF n = 0 THEN 0 ELSE SumTo(m, n - 1) + m[n]
+\* size of the j-th item (1-based) and the offset of the end of the j-th item in the item area
+ItemSize(f, j) == LET m == MixOf(f) IN m[((j - 1) % Len(m)) + 1]
+ItemEnd(f, j) == LET m == MixOf(f)  L == Len(m) IN (j \div L) * SumTo(m, L) + SumTo(m, j % L)
+
+\* ---- bodies whose wire form depends on the protocol version -----------------------------
+\* core/src/core/transaction.rs: kernels are written in a fixed 17-byte feature layout for version 1
+\* and in a per-variant layout from version 2 on (KernelFeatures::write_v1 / write_v2); inputs
+\* carry their feature byte up to version 2 and are bare commitments from version 3 on.
+VerClass(v) == IF v <= 1 THEN 1 ELSE IF v = 2 THEN 2 ELSE 3
+KernelSize(kf, v) ==
+  (IF VerClass(v) = 1 THEN 17
+   ELSE CASE kf = "plain" -> 9 [] kf = "coinbase" -> 1 [] kf = "heightlocked" -> 17 [] kf = "nrd" -> 11)
+  + 33 + 64
+RECURSIVE KernelsSize(_, _)
+KernelsSize(ks, v) == IF ks = <<>> THEN 0 ELSE KernelSize(Head(ks), v) + KernelsSize(Tail(ks), v)
+InputSize(v) == IF VerClass(v) = 3 THEN 33 ELSE 34
+OutputSize == 1 + 33 + 8 + 675
+\* PMMR segment: identifier, (pos, hash) of the pruned subtrees, (pos, leaf) of the leaves, proof hashes
+SegSize(o, leaves) == 9 + 8 + o.nh * (8 + 32) + 8 + o.nl * 8 + leaves + 8 + o.np * 32
+NoObj == [kind |-> "", nin |-> 0, nout |-> 0, kern |-> <<>>, ids |-> 0, nh |-> 0, nl |-> 0, np |-> 0]
+\* serialised size of an object at protocol version v
+ObjSize(o, v) ==
+  CASE o.kind = "tx"     -> 32 + 24 + o.nin * InputSize(v) + o.nout * OutputSize + KernelsSize(o.kern, v)
+    [] o.kind = "block"  -> BH + 24 + o.nin * InputSize(v) + o.nout * OutputSize + KernelsSize(o.kern, v)
+    [] o.kind = "cblock" -> BH + 8 + 24 + o.nout * OutputSize + KernelsSize(o.kern, v) + o.ids * 6
+    [] o.kind = "kseg"   -> 32 + SegSize(o, KernelsSize(o.kern, v))
+    [] o.kind = "rseg"   -> 32 + SegSize(o, o.nl * (8 + 675))
+    [] o.kind = "oseg"   -> 32 + SegSize(o, o.nl * 34) + 32
+\* does the version change the wire form of the object at all?
+VersionFree(o) == \A v \in {1, 2, 3} : ObjSize(o, v) = ObjSize(o, 1)
+\* The protocol version of the connection.  The writer serialises every body with it
+\* (`Msg::new(.., version)`), so the built frames of one stream carry one version; the reader
+\* decodes with the same one (`Codec::new(version, ..)`) unless the probe constant says otherwise.
+WriterVersion(s) == LET vs == {s[i].ver : i \in {j \in 1..Len(s) : s[j].k = "built"}} IN
+                    IF vs = {} THEN 0 ELSE CHOOSE v \in vs : TRUE
+OneVersion(s) == \A i, j \in 1..Len(s) : (s[i].k = "built" /\ s[j].k = "built") => s[i].ver = s[j].ver
+ReaderVersion(s) == IF VersionSkew > 0 THEN VersionSkew ELSE WriterVersion(s)
+\* what the body decoder of the reader makes of frame f: bytes consumed, -1 = refuses
+NeedAt(s, f) == IF f.k # "built" THEN f.need
+                ELSE IF VerClass(ReaderVersion(s)) = VerClass(f.ver) \/ VersionFree(f.obj) THEN f.need ELSE -1
 RECURSIVE StartOf(_, _)
 StartOf(s, i) == IF i = 1 THEN 0 ELSE StartOf(s, i - 1) + FrameSize(s[i - 1])
 Total(s) == IF s = <<>> THEN 0 ELSE StartOf(s, Len(s)) + FrameSize(s[Len(s)])
@@ -131,19 +194,33 @@ AllocBound(f) == IF FrameClass(f) = "refused" THEN 65536 ELSE 16 * (HDR + f.body
 \* Frame constructors used by the model-checking and trace modules
 Frame(k, t, magic, len, body, need, count, items, extra, att) ==
   [k |-> k, t |-> t, magic |-> magic, len |-> len, body |-> body, need |-> need,
-   count |-> count, items |-> items, extra |-> extra, att |-> att]
+   count |-> count, items |-> items, extra |-> extra, att |-> att,
+   mix |-> <<>>, ver |-> 0, obj |-> NoObj, mv |-> IF magic THEN "ok" ELSE "b2", wlen |-> ""]
 \* fixed-size body of sz bytes
 Fixed(t, sz) == Frame("fixed", t, TRUE, sz, sz, sz, 0, 0, 0, 0)
 \* count field of `base` bytes followed by items of isz bytes; the decoder refuses count > cap
 Counted(t, base, isz, cap, count, items) ==
-  Frame("counted", t, TRUE, base + items * isz, base + items * isz,
-        IF count > cap THEN -1 ELSE base + count * isz, count, items, 0, 0)
-HeadersF(count, items, extra) ==
-  Frame("headers", T_Headers, TRUE, 2 + items * BH + extra, 2 + items * BH + extra, 0, count, items, extra, 0)
+  [Frame("counted", t, TRUE, base + items * isz, base + items * isz,
+         IF count > cap THEN -1 ELSE base + count * isz, count, items, 0, 0) EXCEPT !.mix = <<isz>>]
+\* list of `items` block headers whose sizes cycle through `mix`, `extra` bytes of no header behind them
+HeadersM(count, items, extra, mix) ==
+  LET sz == (items \div Len(mix)) * SumTo(mix, Len(mix)) + SumTo(mix, items % Len(mix)) IN
+  [Frame("headers", T_Headers, TRUE, 2 + sz + extra, 2 + sz + extra, 0, count, items, extra, 0) EXCEPT !.mix = mix]
+HeadersF(count, items, extra) == HeadersM(count, items, extra, <<BH>>)
+\* an object of composition o serialised by the writer at protocol version v (`Msg::new`)
+Built(t, o, v) == [Frame("built", t, TRUE, ObjSize(o, v), ObjSize(o, v), ObjSize(o, v), 0, 0, 0, 0)
+                     EXCEPT !.ver = v, !.obj = o]
 Archive(att) == Frame("archive", T_Archive, TRUE, 48, 48, 48, 0, 0, 0, att)
 Unknown(t, len) == Frame("unknown", t, TRUE, len, len, 0, 0, 0, 0, 0)
 \* hand-crafted header: announced len, `body` bytes present, decoder would need `need`
 Raw(t, magic, len, body, need, count) == Frame("raw", t, magic, len, body, need, count, 0, 0, 0)
+\* the same with the two magic bytes named: mv is the network whose magic the frame carries
+\* ("main" / "test" / "other") or a corruption of the local one ("b1": first byte, "b2": second, "b12": both)
+RawMagic(t, mv, local, len, body, need, count) == [Raw(t, mv = local, len, body, need, count) EXCEPT !.mv = mv]
+\* a header announcing a length beyond TLC's integers: the model value is 2^30 (the machine only
+\* compares it with limits below 2^30), the wire carries `wl`
+HugeLen == 1073741824
+RawWire(t, wl, body) == [Raw(t, TRUE, HugeLen, body, 0, 0) EXCEPT !.wlen = wl]
 
 \* Uniform result records.  r: msg | headers | att | unknown | err
 Res(r, t, n, rem, fi, p, why) ==
@@ -179,8 +256,10 @@ ExpectedSeq(s) == ExpectFrom(s, 1)
 FrameCuts(s, i) ==
   LET f == s[i]  b == StartOf(s, i)  e == b + HDR + f.body IN
   {b + 1, b + 2, b + 3, b + HDR - 1, b + HDR, b + HDR + 1, b + HDR + 2, b + HDR + 3,
-   b + HDR + 2 + BH - 1, b + HDR + 2 + BH, b + HDR + 2 + BH + 1, b + HDR + 2 + BHMAX, b + HDR + 2 + BHMAX + 1,
-   b + HDR + 2 + BATCH * BH - 1, b + HDR + 2 + BATCH * BH, b + HDR + 2 + BATCH * BH + 1,
+   b + HDR + 2 + ItemEnd(f, 1) - 1, b + HDR + 2 + ItemEnd(f, 1), b + HDR + 2 + ItemEnd(f, 1) + 1,
+   b + HDR + 2 + BHMAX, b + HDR + 2 + BHMAX + 1,
+   b + HDR + 2 + ItemEnd(f, 2), b + HDR + 2 + ItemEnd(f, 1) + BHMAX,
+   b + HDR + 2 + ItemEnd(f, BATCH) - 1, b + HDR + 2 + ItemEnd(f, BATCH), b + HDR + 2 + ItemEnd(f, BATCH) + 1,
    e - 1, e, e + 1, e + CHUNK - 1, e + CHUNK, e + CHUNK + 1}
 Cuts(s) == {c \in UNION {FrameCuts(s, i) : i \in 1..Len(s)} : c > 0 /\ c < Total(s)}
 
@@ -317,9 +396,9 @@ ParseBody ==
   /\ LET f == stream[st.fi] IN
      IF st.t \in {0, 1, 2}
      THEN Return(Res("err", st.t, 0, 0, st.fi, pos, "unexpected"), [NoneSt EXCEPT !.fi = st.fi], buf - nl, -1)
-     ELSE IF f.need < 0 \/ f.need > st.len
+     ELSE IF NeedAt(stream, f) < 0 \/ NeedAt(stream, f) > st.len
      THEN Return(Res("err", st.t, 0, 0, st.fi, pos, "decode"), [NoneSt EXCEPT !.fi = st.fi], buf - nl, -1)
-     ELSE IF f.need < st.len
+     ELSE IF NeedAt(stream, f) < st.len
      THEN \* the statement: a body whose length exceeds what its items account for is refused
           \* (codec.rs `decode_message` does not check that the body was consumed: the replay
           \* reports that as codec:trailing_bytes_accepted:<type>)
@@ -342,7 +421,12 @@ ParseUnknown ==
   /\ Return(Res("unknown", st.t, 0, 0, st.fi, pos, ""), [NoneSt EXCEPT !.fi = st.fi], buf - nl, -1)
 
 \* is there a well-formed header at body offset `off` of frame f with `have` bytes buffered?
-HeaderParses(f, off, have) == off % BH = 0 /\ off \div BH < f.items /\ have >= BH
+\* (item j + 1 starts at `off`; the reader may hold more than the item: it over-reads up to BHMAX)
+ItemAt(f, off) == LET m == MixOf(f)  L == Len(m)  S == SumTo(m, L)
+                      c == {k \in 0..(L - 1) : SumTo(m, k) = off % S} IN
+                  IF c = {} THEN -1
+                  ELSE LET j == (off \div S) * L + (CHOOSE k \in c : TRUE) IN IF j < f.items THEN j ELSE -1
+HeaderParses(f, off, have) == ItemAt(f, off) >= 0 /\ have >= ItemSize(f, ItemAt(f, off) + 1)
 
 ParseBlockHeader ==
   /\ st.tag = "BlockHeaders"
@@ -355,16 +439,17 @@ ParseBlockHeader ==
           ELSE Return(Res("err", T_Headers, 0, 0, st.fi, pos, "count"), [NoneSt EXCEPT !.fi = st.fi], buf, -1)
      ELSE IF ~HeaderParses(f, (f.len - 2) - st.bl, buf)
      THEN Return(Res("err", T_Headers, 0, 0, st.fi, pos, "decode"), st, buf, -1)
-     ELSE LET bl2 == Max(st.bl - BH, 0)
+     ELSE LET isz == ItemSize(f, ItemAt(f, (f.len - 2) - st.bl) + 1)   \* `reader.bytes_read()` of this header
+              bl2 == Max(st.bl - isz, 0)
               il2 == st.il - 1            \* usize: a negative value stands for the wrapped one
               acc2 == st.acc + 1 IN
           IF acc2 = BATCH \/ il2 = 0
           THEN IF il2 = 0
                THEN IF bl2 > 0
-                    THEN Return(Res("err", T_Headers, 0, 0, st.fi, pos, "count"), [NoneSt EXCEPT !.fi = st.fi], buf - BH, -1)
-                    ELSE Return(Res("headers", T_Headers, acc2, 0, st.fi, pos, ""), [NoneSt EXCEPT !.fi = st.fi], buf - BH, -1)
-               ELSE Return(Res("headers", T_Headers, acc2, il2, st.fi, pos, ""), BlockHeadersSt(st.fi, bl2, il2, 0), buf - BH, -1)
-          ELSE Continue(BlockHeadersSt(st.fi, bl2, il2, acc2), buf - BH)
+                    THEN Return(Res("err", T_Headers, 0, 0, st.fi, pos, "count"), [NoneSt EXCEPT !.fi = st.fi], buf - isz, -1)
+                    ELSE Return(Res("headers", T_Headers, acc2, 0, st.fi, pos, ""), [NoneSt EXCEPT !.fi = st.fi], buf - isz, -1)
+               ELSE Return(Res("headers", T_Headers, acc2, il2, st.fi, pos, ""), BlockHeadersSt(st.fi, bl2, il2, 0), buf - isz, -1)
+          ELSE Continue(BlockHeadersSt(st.fi, bl2, il2, acc2), buf - isz)
 
 ParseAttachment ==
   /\ st.tag = "Attachment"
@@ -386,6 +471,7 @@ TypeOK ==
   /\ st.tag \in {"None", "Header", "BlockHeaders", "Attachment"}
   /\ want >= -1 /\ halted \in BOOLEAN /\ done \in BOOLEAN
   /\ tmo \in {"hdr", "body"} /\ sil \in BOOLEAN
+  /\ OneVersion(stream)
 
 \* Merge the batches of one Headers frame / the chunks of one attachment: only totals, order and
 \* the "remaining"/"left" bookkeeping matter, not the grouping.
